@@ -37,8 +37,9 @@ def bounds(tier):
 def grammar():
     atoms = {
         'N': [tf('x'), alias_field('A', 'x'), ('field', tf('m'), 'f'), num(0), num(10), ('lit', '2.5', 2.5), ('lit', '1e3', 1000.0), ('lit', '.5', 0.5),
-              ('lit', 'PI', absyn.CONSTANTS['PI']), ('lit', 'E', absyn.CONSTANTS['E'])],
-        'B': [tf('p'), TRUE, FALSE],
+              ('lit', 'PI', absyn.CONSTANTS['PI']), ('lit', 'E', absyn.CONSTANTS['E']),
+              ('lit', '9007199254740993', 9007199254740993), ('lit', '18446744073709551615', 18446744073709551615), tf('_r1')],
+        'B': [tf('p'), tf('_b'), TRUE, FALSE],
         'S': [tf('s'), ('lit', '"a b"', '"a b"'), ('lit', '"\\"q\\""', '"\\"q\\""')],
         'A': [tf('xs'), alias_field('A', 'xs')],
     }
@@ -105,6 +106,11 @@ def compare_text(kind, text, expected=None, r=None):
         r.outcomes[f'{kind}:real={ro[0]}/ref={fo[0]}'] += 1
     if fo[0] == 'skip':
         return problems
+    if fo[0] == 'tree' and kind in ('prop', 'spec'):
+        # an event stores references to its own alias as the message itself
+        t_ = fo[1]
+        t_ = normalise_own_alias(t_) if kind == 'prop' else ('spec', tuple(normalise_own_alias(q) for q in t_[1]))
+        fo = ('tree', t_, fo[2])
     # texts outside the specified language: identifier equal to a keyword
     if (fo[0] == 'tree' and (fo[2]['notes'] or has_keyword_name(fo[1]))) or (ro[0] == 'tree' and has_keyword_name(ro[1])):
         if r is not None:
@@ -420,6 +426,7 @@ def plan(tier):
     units += [('opmatrix', tier, k, 8) for k in range(8)]
     units.append(('sync', tier))
     units.append(('prefixed', tier))
+    units.append(('ownalias', tier))
     units.append(('proplayout', tier))
     return units
 
@@ -582,6 +589,40 @@ def run(unit):
             probs = compare_text(kind, text, exp, r)
             _add(r, [(f'keyword-prefixed name: {k_}', d) for k_, d in probs], {'kind': kind, 'text': text}, len(text))
         r.sample({'keyword_prefixed': 'globally : no nox'})
+    elif what == 'ownalias':
+        # an event's predicate refers to the event's own alias in every slot kind (the parser stores the
+        # message itself there): operands, range bounds with each bracket form, set elements, indices,
+        # function arguments, quantifier domains and bodies, nested accessors
+        from hplmc.universe import alias_field as af
+
+        M = lambda f: af('M', f)  # noqa: E731
+        x, y = tf('x'), tf('y')
+        bodies = []
+        for fl in ((False, False), (True, True), (True, False), (False, True)):
+            bodies.append(('bin', 'in', x, ('range', num(0), M('lim'), fl[0], fl[1])))
+            bodies.append(('bin', 'in', x, ('range', M('lo'), ('bin', '+', M('hi'), num(1)), fl[0], fl[1])))
+            bodies.append(('quant', 'forall', 'i', ('range', num(0), ('call', 'len', (M('xs'),)), fl[0], fl[1]), ('bin', '>', ('index', M('xs'), ('var', 'i')), num(0))))
+        bodies += [
+            ('bin', 'in', M('k'), ('set', (num(1), M('j'), y))), ('bin', '>', ('index', tf('xs'), M('i')), num(0)), ('bin', '>', ('index', M('xs'), ('bin', '-', M('n'), num(1))), y),
+            ('bin', '<', ('call', 'abs', (M('v'),)), ('un', '-', M('w'))), ('bin', '>', ('call', 'roll', (('var', 'M'),)), num(0)), ('quant', 'exists', 'i', M('xs'), ('bin', '=', ('var', 'i'), M('k'))),
+            ('bin', 'and', ('un', 'not', M('p')), ('bin', 'implies', M('q'), ('bin', '=', ('field', M('m'), 'f'), ('field', tf('m'), 'f')))), ('bin', '=', ('field', ('index', M('ms'), M('i')), 'g'), num(1)),
+        ]
+        for body in bodies:
+            for sk, pk, pos in (('globally', 'absence', 'beh'), ('after', 'existence', 'act'), ('until', 'response', 'trig'), ('after_until', 'requirement', 'term'), ('globally', 'prevention', 'beh')):
+                evs = {'act': props.ev('sa'), 'term': props.ev('te'), 'trig': props.ev('tg'), 'beh': props.ev('bh')}
+                evs[pos] = props.ev('tt', 'M', ('pred', body))
+                p = props.make_property(sk, pk, act=evs['act'], term=evs['term'], trig=evs['trig'], beh=evs['beh'])
+                text = absyn.property_text(p)
+                r.count('evaluations')
+                r.count('states')
+                probs = compare_text('prop', text, normalise_own_alias(p), r)
+                probs += compare_text('spec', text + ' # id : zz globally : no yy', None, r)
+                _add(r, [(f'own alias in a predicate slot: {k_}', d) for k_, d in probs], {'kind': 'prop', 'text': text}, len(text))
+        # a string token cannot contain a raw newline
+        for text in ('globally : no a { s = "a\nb" }', '# title : "a\nb" globally : no a', 'globally : no a { s = "a\\nb" }'):
+            r.count('evaluations')
+            _add(r, compare_text('prop', text, None, r), {'kind': 'prop', 'text': text}, len(text))
+        r.sample({'own_alias': 'globally : no tt as M { x in [ 0 to @M . lim ]! }'})
     elif what == 'proplayout':
         # layouts of property texts: every single (double) separator deviation
         for kind in ('prop', 'spec', 'pred'):
@@ -633,7 +674,7 @@ def replay(w):
 def describe(tier):
     b = bounds(tier)
     return {
-        'rule': f"U1: all Bool/Num/Str terms <= {b['nodes']} nodes (every expression node kind; ints, decimals, exponents, leading-dot numbers, escaped strings, constants) in minimal and full parenthesisation through the expression, predicate and condition entry points and (predicates) inside a property and a specification file, which use the other embedded grammar; the operator-pair matrix: every well-sorted (a op1 b) op2 c and a op1 (b op2 c) over all pairs of the 16 binary operators plus unary operators and quantifiers in operand positions (344 terms) through all five entry points; U2: every property skeleton (widths <= {b['max_width']}) x 4 decorations x 6 time bounds x 3 metadata forms; U3: all layouts (newline, tab, glued) and redundant parentheses with <= {b['layout_dev']} deviations on terms <= {b['layout_nodes']} nodes and on the property/specification corpus; U4: all token sequences of length <= {b['seq_len_full']} over a {len(FULL_ALPHABET)}-token alphabet for 5 entry points, <= {b['seq_len_core']} over a {len(CORE_ALPHABET)}-token core alphabet (properties: <= {b['seq_len_core'] + 2} over {len(PROP_CORE)} tokens), all single token edits{' and double edits' if b['double_edits'] else ''} of a {sum(len(v) for v in CORPUS.values())}-text corpus; U5: grammar files vs embedded grammar on the corpus and its edits; U6: {len(PREFIXED)} keyword-prefixed names as field, nested field, variable, quantified variable, topic and alias. A state = one text; a transition = one real parse; every text is decided three ways (generator tree / reference parser / implementation).",
+        'rule': f"U1: all Bool/Num/Str terms <= {b['nodes']} nodes (every expression node kind; ints, decimals, exponents, leading-dot numbers, escaped strings, constants) in minimal and full parenthesisation through the expression, predicate and condition entry points and (predicates) inside a property and a specification file, which use the other embedded grammar; the operator-pair matrix: every well-sorted (a op1 b) op2 c and a op1 (b op2 c) over all pairs of the 16 binary operators plus unary operators and quantifiers in operand positions (344 terms) through all five entry points; U2: every property skeleton (widths <= {b['max_width']}) x 4 decorations x 6 time bounds x 3 metadata forms; U3: all layouts (newline, tab, glued) and redundant parentheses with <= {b['layout_dev']} deviations on terms <= {b['layout_nodes']} nodes and on the property/specification corpus; U4: all token sequences of length <= {b['seq_len_full']} over a {len(FULL_ALPHABET)}-token alphabet for 5 entry points, <= {b['seq_len_core']} over a {len(CORE_ALPHABET)}-token core alphabet (properties: <= {b['seq_len_core'] + 2} over {len(PROP_CORE)} tokens), all single token edits{' and double edits' if b['double_edits'] else ''} of a {sum(len(v) for v in CORPUS.values())}-text corpus; U5: grammar files vs embedded grammar on the corpus and its edits; U7: 21 predicates that use the event's own alias in every slot kind (range bounds with all bracket forms, set elements, indices, function arguments incl. the whole message, quantifier domains and bodies) x 5 property positions; U6: {len(PREFIXED)} keyword-prefixed names as field, nested field, variable, quantified variable, topic and alias. A state = one text; a transition = one real parse; every text is decided three ways (generator tree / reference parser / implementation).",
         'bounds': b,
         'exhaustive': True,
         'assumptions': [
